@@ -154,3 +154,11 @@ func TestJwks(t *testing.T) {
 	}
 	fmt.Printf("SCENARIOS-RUN %d\n", n)
 }
+
+// TestEntropyChild prints the values of the first logins of a fresh process (used by the restart witness).
+func TestEntropyChild(t *testing.T) {
+	if os.Getenv("VERIF_ENTROPY_CHILD") == "" {
+		t.Skip("not a child")
+	}
+	runEntropyChild()
+}
